@@ -4,6 +4,7 @@ import Pycoin.Model.Merkle
 import Pycoin.Model.MerkleBlock
 import Pycoin.Spec.Merkle
 import Pycoin.Model.Block
+import Pycoin.Model.BlockOffsets
 import Pycoin.DriverLib.TxText
 namespace Pycoin.Driver.C14
 open Pycoin Pycoin.Driver Pycoin.Hash
@@ -29,6 +30,8 @@ def parseStep? (s : String) : Option ObjStep :=
   | ["as_bin"] => some .asBin
   | ["header"] => some .streamHeader
   | ["as_blockheader"] => some .asBlockheader
+  | ["as_hex"] => some .asHex
+  | ["prev_id"] => some .prevId
   | ["set_nonce", n] => (parseInt? n).map .setNonce
   | ["set", f, v] => do
     let f ← parseField? f
@@ -46,6 +49,8 @@ def answer (o : BlockObj) : ObjStep → String
   | .id => match o.hash with | .ok (h, _) => String.ofList (Tx.b2hRev h) | .error e => "err:" ++ e.tag
   | .asBin => match Block.stream ⟨o.hdr, o.txs⟩ with | .ok b => hexOrDash b | .error e => "err:" ++ e.tag
   | .streamHeader => match Block.streamHeader o.hdr with | .ok b => hexOrDash b | .error e => "err:" ++ e.tag
+  | .asHex => match Block.stream ⟨o.hdr, o.txs⟩ with | .ok b => hexOrDash b | .error e => "err:" ++ e.tag
+  | .prevId => hexOrDash o.hdr.prev.reverse
   | _ => "-"
 
 def runSteps (o : BlockObj) : List ObjStep → List String
@@ -102,6 +107,13 @@ def handle : Handler := fun op args =>
       | .ok b, .ok i => some s!"ok {DriverLib.encodeHexFast b} {String.ofList i} {blk.txs.length}"
       | .error e, _ => some ("err " ++ e.tag)
       | _, .error e => some ("err " ++ e.tag)
+  -- Block.parse(f, include_offsets=True, check_merkle_hash) -> tx.offset_in_block of every transaction, bytes left unread
+  | "block_offs", [c, check, data] => do
+    let c ← DriverLib.parseCoin? c
+    let data ← DriverLib.decodeHexFast data
+    match Block.parseWithOffsets c (check = "1") data with
+    | .error e => some ("err " ++ e.tag)
+    | .ok (_, offs, rest) => some s!"ok {showList toString offs} {rest.length}"
   -- Block.parse_as_header(f) -> stream_header, id(), bytes left unread
   | "header_rt", [data] => do
     let data ← if data = "-" then some [] else DriverLib.decodeHexFast data
